@@ -7,7 +7,7 @@ V = Path(__file__).resolve().parent.parent
 CLAIMED = {
  "C04": ("per-tree Coq instance theorems c04_generator_model_reproduces_shipped (vm_compute): the Gallina model of the generator applied to each of the 186 pinned definitions yields, for each of their versions (all 666 modules), exactly the shipped classes (names, field order, annotations, metadata, tags, defaults, flexibility, key, header); plus translation validation: the package equals the pinned canonical description (hand edits), the CURRENT generator re-run on the pinned definitions reproduces the package (generator changes), hand-written API-key pins and counts. Limitation: upstream JSON is not available offline; pinned/defs are reconstructions validated by regenerating all 1629 classes with the unmodified generator",
          "Coq instance theorems by vm_compute (generator model on pinned definitions) + translation validation of the real generator", "4 C04"),
- "C16": ("Coq theorems over the Gallina model of the generator, for every definition and version: the fields of the emitted top-level class are exactly the definition's fields valid at the version, in order, snake-cased, tagged iff the version is in taggedVersions; all classes carry version/flexibility/key/header rule; one class per structure (no self-nesting); correspondence on seeded random definitions: real generator output = model, independent reading of the definition, generated index, and bytes kio encodes for instances of generated classes = model encoder over plans read off the definition (with wf_env checked per module). Partial: pydantic's JSON layer and the supported-subset conditions (keywords, zero-size array items, optional tagged structs) are inside the correspondence, not the theorems",
+ "C16": ("Coq theorems over the Gallina model of the generator, for every definition and version: the fields of the emitted top-level class are exactly the definition's fields valid at the version, in order, snake-cased, tagged iff the version is in taggedVersions; all classes carry version/flexibility/key/header rule; one class per structure (no self-nesting); c16_supported_definitions_are_well_formed / c16_supported_definitions_encode_to_spec: for every definition and version satisfying the boolean defn_ok, the plans read off the generated module are well formed, so its classes encode to the wire specification and decode back (defn_ok is evaluated on every generated module and agreed with def_wf on all of them); correspondence on seeded random definitions: real generator output = model, independent reading of the definition, generated index, and bytes kio encodes for instances of generated classes = model encoder over plans read off the definition (with wf_env checked per module). Partial: pydantic's JSON layer and the supported-subset conditions (keywords, zero-size array items, optional tagged structs) are inside the correspondence, not the theorems",
          "machine-checked proof (Coq) over the generator model + translation-validation correspondence on random definitions", "4 C16"),
 
  "C12": ("Coq theorems (Types/PhantomProofs.v): constructor call = identity on members / TypeError otherwise; integer types nest by range for ALL integers; membership of a fixed-width type <-> the writer succeeds, and then the reader returns the value; f64, both duration types (read back as the value rounded half-even to whole ms) and the timestamp type are accepted by their writers and read back; instance theorem: translated interval bounds = documented bounds and subclass chains nest; correspondence on isinstance / constructor / writer / read-back over boundary values of every Python type",
@@ -31,7 +31,7 @@ CLAIMED = {
          "machine-checked proof (Coq) + exhaustive/boundary correspondence of public primitives", "4 C11"),
  "C17": ("Coq theorems c17_header_derived / c17_independent_decoder_recovers / c17_empty_rejected: the model of write_new_batch produces, for every non-empty record list, a batch whose fields at the format's byte offsets are the derived values, batch_length = len-12, CRC-32C over bytes 21..end, and an independent decoder recovers exactly the records; correspondence with kio.records.writers + independent Python decoder",
          "machine-checked proof (Coq) against an independent format parser + correspondence", "4 C17"),
- "C18": ("Coq theorems: c18_fields_as_encoded, c18_magic_checked, c18_crc_checked, c18_crc_single_bit (CRC-32C detects every single-bit error in messages of any length, by GF(2)-linearity), c18_bit_flip_rejected, c18_truncation_rejected; correspondence on reference-encoded batches and the broker fixtures under identity/bit flips/truncation/CRC-forced truncation; one recorded known finding (whole-second record timestamps)",
+ "C18": ("Coq theorems: c18_fields_as_encoded, c18_magic_checked, c18_crc_checked, c18_crc_single_bit (CRC-32C detects every single-bit error in messages of any length, by GF(2)-linearity), c18_bit_flip_rejected, c18_truncation_rejected, c18_reader_inverts_writer (for every well-formed prepared batch and any trailing bytes the reader returns the batch, record timestamps floored to seconds), c18_rewrite_reproduces_partial / c18_rewrite_reproduces_iff / c18_rewrite_reproduces_refuted (re-writing reproduces the bytes exactly when no record has a sub-second millisecond part: the known finding as a theorem); correspondence on reference-encoded batches and the broker fixtures under identity/bit flips/truncation/CRC-forced truncation; one recorded known finding (whole-second record timestamps)",
          "machine-checked proof (Coq) incl. CRC linearity + fault-enumeration correspondence", "4 C18"),
 
  "C01": ("Coq theorem c01_roundtrip (Props/C01.v): for EVERY well-formed plan environment, class, typed canonical value and trailing bytes, decode(encode v ++ tl) = (v, tl); instance wf_env(shipped plans)=true by vm_compute; model tied to kio by a per-run correspondence on generated instances of all 1629 classes",
